@@ -54,6 +54,14 @@ def do_mutant(m, slot):
                                    capture_output=True, text=True)
                 if r.returncode != 0:
                     return {"name": m["name"], "status": "skipped", "why": "patch does not apply: " + r.stdout[-300:]}
+        elif "rename" in m:
+            import re
+            p = os.path.join(d, m["file"])
+            s = open(p).read()
+            s2 = re.sub(r"(?<![A-Za-z0-9_])(?<![A-Za-z0-9_)\]]\.)" + re.escape(m["rename"]) + r"(?![A-Za-z0-9_])", m["to"], s)
+            if s2 == s:
+                return {"name": m["name"], "status": "skipped", "why": "identifier not found"}
+            open(p, "w").write(s2)
         else:
             p = os.path.join(d, m["file"])
             s = open(p).read()
@@ -69,6 +77,8 @@ def do_mutant(m, slot):
         ok = bool(flagged) and all(e in flagged for e in m.get("expect", [])) and \
             (not m.get("key") or any(m["key"] in k for k in keys))
         status = "caught" if ok else ("compile-error" if broken and not flagged else "MISSED")
+        if m.get("harmless"):
+            status = "compile-error" if broken else ("FALSE-ALARM" if flagged else "silent")
         return {"name": m["name"], "status": status, "flagged": flagged, "keys": keys[:8],
                 "err": [res[p]["err"][-400:] for p in broken][:1]}
     finally:
@@ -119,14 +129,14 @@ def main():
         for r in ex.map(guarded, list(enumerate(ms))):
             results.append(r)
             print("%-8s %-60s %s %s" % (r["status"], r["name"], r.get("flagged", ""), r.get("why", "")))
-            if r["status"] in ("MISSED", "compile-error"):
+            if r["status"] in ("MISSED", "compile-error", "FALSE-ALARM"):
                 for k in r.get("keys", []):
                     print("      ", k)
                 for e in r.get("err", []):
                     print("      ", e)
     if a.json:
         json.dump(results, open(a.json, "w"), indent=1)
-    bad = [r for r in results if r["status"] == "MISSED"]
+    bad = [r for r in results if r["status"] in ("MISSED", "FALSE-ALARM")]
     return 1 if bad else 0
 
 
